@@ -7,7 +7,7 @@ import SalsaVerif.Proofs.CycleRevLe
 namespace SalsaVerif.Proofs.CycleRev
 open SalsaVerif.Model
 open SalsaVerif.Model.CycleRev
-open SalsaVerif.Proofs.Cycle (le le_refl le_trans zero_le or_le or_mono and_mono mod_mono)
+open SalsaVerif.Proofs.Cycle (le le_refl le_trans zero_le or_le or_mono and_mono mod_mono low_mono)
 
 /-- no `FallbackImmediate` node. -/
 def NoFb (P : Prog) : Prop := ∀ nd ∈ P.nodes, ∀ v, nd.strat ≠ .fallback v
@@ -154,7 +154,27 @@ theorem good_evalM (fetch : Nat → St → Res (Nat × St))
     · rw [if_pos h1, if_pos (hc.1 h1)]; exact iha hn.1 s1 hg
     · rw [if_neg h1, if_neg (fun h2 => h1 (hc.2 h2))]; exact ihb hn.2 s1 hg
   | add a b _ _ => intro hn; simp [noAddE] at hn
-  | gate c a _ _ => intro hn; simp [noAddE] at hn
+  | gate c a ihc iha =>
+    intro hn s h
+    simp only [noAddE, Bool.and_eq_true] at hn
+    have hc := ihc hn.1 s h
+    unfold evalM
+    cases hr : evalM fetch c s with
+    | error p => rw [hr] at hc; exact hc
+    | ok r =>
+      obtain ⟨x, s1⟩ := r
+      rw [hr] at hc
+      simp only
+      by_cases ho : x % 2 = 1
+      · rw [if_pos ho]
+        have ha := iha hn.2 s1 hc.1
+        have ho' := low_mono hc.2 ho
+        show Good B i (fun v => le v (if Cycle.evalExpr (envI i) B (toCycleExpr c) % 2 = 1
+          then Cycle.evalExpr (envI i) B (toCycleExpr a) else 0)) _
+        rw [if_pos ho']
+        exact ha
+      · rw [if_neg ho]
+        exact ⟨hc.1, zero_le _⟩
 
 /-- an engine level whose entry points keep the invariant. -/
 structure EngGood (B : Nat → Nat) (i : List Inp) (sub : Eng) : Prop where
